@@ -26,8 +26,8 @@ done
 cp "$demo" $place/zz_seed_demo_test.go
 TAGS=""; grep -q "go:build verif" "$demo" && TAGS="-tags verif"
 head -1 "$demo" | grep -q -- "-race" && TAGS="$TAGS -race"
-(cd $place && go test $TAGS -vet=off -count=1 -timeout 10m -run 'Demo|Seed' . > $src/verify-demo-with.log 2>&1); echo "demo with change: exit $?" >> $out
+(cd $place && go test $TAGS -vet=off -count=1 -timeout 10m -run 'Demo|Seed|C[0-9][0-9]' . > $src/verify-demo-with.log 2>&1); echo "demo with change: exit $?" >> $out
 git checkout -q -- . 
-(cd $place && go test $TAGS -vet=off -count=1 -timeout 10m -run 'Demo|Seed' . > $src/verify-demo-without.log 2>&1); echo "demo without change: exit $?" >> $out
+(cd $place && go test $TAGS -vet=off -count=1 -timeout 10m -run 'Demo|Seed|C[0-9][0-9]' . > $src/verify-demo-without.log 2>&1); echo "demo without change: exit $?" >> $out
 cd /; git -C /repo worktree remove --force $wt
 cat $out
